@@ -94,7 +94,6 @@ Section Inv.
     po_hdr : hdrdec hdr = Some (roots, 1);
     po_pragma : exists r, hdrdec pragma_body = Some (r, 2);
     po_maxh : blen hdr <= w_maxh o;
-    po_maxh0 : blen hdr <= default_maxh;
     po_cid : w_maxcid o <= max_digest_alloc }.
 
   Record Inv (s : wstate) (st : list block) : Prop := {
@@ -109,6 +108,12 @@ Section Inv.
     inv_faults : d_faults (ws_dev s) = [];
     inv_cids : Forall stored_ok st;
     inv_fits : fits st }.
+
+  Lemma hdr_ge_10 : 10 <= blen hdr.
+  Proof.
+    unfold hdr, enc_header. rewrite !blen_app. change (blen [xa2]) with 1. change (blen key_roots) with 6.
+    change (blen key_version) with 8. change (blen (cbor_head 0 1)) with 1. lia.
+  Qed.
 
   Lemma blen_base_file : 51 + w_dpad o < two64 -> blen base_file = data_base o + hsz.
   Proof.
@@ -276,7 +281,8 @@ Section Inv.
   Proof.
     intros Hc Hfit. pose proof (fits_mono _ Hfit) as Hfit0. pose proof (fits_nil_64 Hfit0) as Hf0.
     assert (H64 : 51 + w_dpad o < two64) by (unfold two63, two64 in *; lia).
-    destruct Hpar as [Hhdr [r0 Hprag] Hmaxh Hmaxh0 Hcid].
+    destruct Hpar as [Hhdr [r0 Hprag] Hmaxh Hcid].
+    assert (Hp10 : 10 <= w_maxh o) by (pose proof hdr_ge_10; lia).
     unfold resume, live_file, base_file.
     destruct (w_v1 o) eqn:Ev.
     - (* CARv1 *)
@@ -297,8 +303,8 @@ Section Inv.
       + rewrite app_length; pose proof (enc_sections_len st) as Hl; unfold block in *; lia.
     - (* CARv2, header still zero *)
       unfold v2_prefix. rewrite pragma_is_ld at 1. rewrite <- !app_assoc.
-      rewrite (read_header_ld hdrdec default_maxh pragma_body r0 2) by
-        (try exact Hprag; rewrite blen_pragma_body; unfold default_maxh, two63; lia).
+      rewrite (read_header_ld hdrdec (w_maxh o) pragma_body r0 2) by
+        (try exact Hprag; rewrite blen_pragma_body; try exact Hp10; unfold two63; lia).
       cbn [N.eqb Pos.eqb andb orb negb].
       rewrite data_base_v2 by assumption.
       rewrite (drop_app_len pragma_size pragma) by reflexivity.
@@ -410,11 +416,12 @@ Section Inv.
     assert (Hpos : pos_of st = hsz + blen (enc_sections st)) by reflexivity.
     pose proof Hfit as Hfit'. unfold fits in Hfit'.
     pose proof hsz_pos as Hhp.
-    destruct Hpar as [Hhdr [r0 Hprag] Hmaxh Hmaxh0 Hcid].
+    destruct Hpar as [Hhdr [r0 Hprag] Hmaxh Hcid].
+    assert (Hp10 : 10 <= w_maxh o) by (pose proof hdr_ge_10; lia).
     unfold resume, fin_file. rewrite Ev.
     rewrite pragma_is_ld at 1.
-    rewrite (read_header_ld hdrdec default_maxh pragma_body r0 2) by
-      (try exact Hprag; rewrite blen_pragma_body; unfold default_maxh, two63; lia).
+    rewrite (read_header_ld hdrdec (w_maxh o) pragma_body r0 2) by
+      (try exact Hprag; rewrite blen_pragma_body; try exact Hp10; unfold two63; lia).
     cbn [N.eqb Pos.eqb andb orb negb].
     rewrite data_base_v2 by assumption.
     rewrite (drop_app_len pragma_size pragma) by reflexivity.
